@@ -19,7 +19,7 @@ DELTA = 2.0 ** -12          # tie breaker of the "levels" class (n <= 1000)
 
 META = dict(
     shards={"quick": 8, "thorough": 16},
-    budget={"quick": 30, "thorough": 420},
+    budget={"quick": 45, "thorough": 480},
     timeout={"quick": 600, "thorough": 3000},
     rule=("cases: a deterministic grid (every length 4..13, N in {1,2,5}, "
           "every data class) plus seeded random cases: N=1..5 series of "
@@ -55,21 +55,22 @@ META = dict(
           "least one twin pair and one separated non-twin pair (twins), or "
           "the data are pairwise distinct and some state has a twin (walk)."),
     floors={
-        "quick": {"shuffle_checked": 300, "fourier_checked": 300,
-                  "aaft_checked": 300, "raaft_amp_checked": 200,
-                  "raaft_spec_checked": 200, "twins_compared": 200,
-                  "twins_with_pairs": 60, "walk_checked": 100,
-                  "walk_jumps": 300, "walk_restarts": 30,
-                  "repeated_call_checks": 1500, "memo_fft_reuse": 500,
-                  "rp_calls": 60, "odd_n_cases": 60, "even_n_cases": 60},
-        "thorough": {"shuffle_checked": 3000, "fourier_checked": 3000,
-                     "aaft_checked": 3000, "raaft_amp_checked": 2000,
-                     "raaft_spec_checked": 2000, "twins_compared": 2000,
-                     "twins_with_pairs": 600, "walk_checked": 1000,
-                     "walk_jumps": 3000, "walk_restarts": 300,
-                     "repeated_call_checks": 15000, "memo_fft_reuse": 5000,
-                     "rp_calls": 600, "odd_n_cases": 600,
-                     "even_n_cases": 600}},
+        "quick": {"shuffle_checked": 1000, "fourier_checked": 2000,
+                  "aaft_checked": 1000, "raaft_amp_checked": 1200,
+                  "raaft_spec_checked": 1200, "twins_compared": 2000,
+                  "twins_with_pairs": 1200, "walk_checked": 1200,
+                  "walk_jumps": 50000, "walk_restarts": 3000,
+                  "repeated_call_checks": 9000, "memo_fft_reuse": 3000,
+                  "normalize_calls": 200, "rp_calls": 400,
+                  "odd_n_cases": 400, "even_n_cases": 400},
+        "thorough": {"shuffle_checked": 3500, "fourier_checked": 7000,
+                     "aaft_checked": 3500, "raaft_amp_checked": 4500,
+                     "raaft_spec_checked": 4500, "twins_compared": 7000,
+                     "twins_with_pairs": 4800, "walk_checked": 4800,
+                     "walk_jumps": 400000, "walk_restarts": 14000,
+                     "repeated_call_checks": 33000, "memo_fft_reuse": 10000,
+                     "normalize_calls": 900, "rp_calls": 1900,
+                     "odd_n_cases": 1600, "even_n_cases": 1600}},
     exhaustive_subspaces={
         "quick": ["lengths 4..13 x N in {1,2,5} x 6 data classes: every "
                   "method called at least once (grid, not all inputs)"],
